@@ -122,7 +122,10 @@ func Judge(w World, events []Event, results []Result) (clause, detail string) {
 			}
 		}
 		usable := t != "" && (w.State[t] == Installed || w.State[t] == RunFails)
-		if t == "goimports" && !w.Which && any == 0 {
+		if t == "goimports" && !w.Which && any == 0 && !r.HasErr {
+			// the Go formatter is located through `which` on the unchanged tree:
+			// without `which` it counts as absent (nothing runs, no error). A tree
+			// that locates it another way finds it: then it is judged as usable.
 			usable = false
 		}
 		switch {
